@@ -80,6 +80,30 @@ def _reversed_inside(a):
     return None
 
 
+def _orders(n):
+    """the non-identity orders tried for n repeated attributes: all of them up to 3, a few beyond"""
+    import itertools
+    ident = tuple(range(n))
+    if n <= 3:
+        return [p for p in itertools.permutations(range(n)) if p != ident]
+    return [ident[::-1], ident[1:] + ident[:1], ident[-1:] + ident[:-1], (1, 0) + ident[2:]]
+
+
+def _permuted_slots(derive, it):
+    """every slot with >= 2 attributes of the derive, in every other order (one slot at a time)"""
+    for pos, lst in slots(it):
+        idx = [k for k, a in enumerate(lst) if _own(derive, a)]
+        if len(idx) < 2:
+            continue
+        for order in _orders(len(idx)):
+            n = clone(it)
+            nl = slot(n, pos)
+            src = [clone(lst[k]) for k in idx]
+            for dst, o in zip(idx, order):
+                nl[dst] = src[o]
+            yield n
+
+
 def rewrites(derive, it):
     """yield (kind, item, mode); mode 'exact' = token-equal modulo the order of impls,
     'perm' = additionally modulo the order of where-predicates"""
@@ -119,14 +143,8 @@ def rewrites(derive, it):
         lst[:] = new
     if hit:
         yield "split", n, "exact"
-        m = clone(n)
-        for pos, lst in slots(m):
-            own = [a for a in lst if _own(derive, a)]
-            if len(own) >= 2:
-                own.reverse()
-                it_own = iter(own)
-                lst[:] = [next(it_own) if _own(derive, a) else a for a in lst]
-        yield "split-reversed", m, "perm"
+        for m in _permuted_slots(derive, n):
+            yield "split-permuted", m, "perm"
     n = clone(it)
     hit = False
     for pos, k, a in _each(derive, n):
@@ -147,17 +165,8 @@ def rewrites(derive, it):
                 hit = True
         if hit:
             yield "trailing-comma-" + cls, n, "exact"
-    # order of independent attributes of one slot
-    n = clone(it)
-    hit = False
-    for pos, lst in slots(n):
-        own = [a for a in lst if _own(derive, a)]
-        if len(own) >= 2:
-            own.reverse()
-            it_own = iter(own)
-            lst[:] = [next(it_own) if _own(derive, a) else a for a in lst]
-            hit = True
-    if hit:
+    # order of independent attributes of one slot: every order of 2 and 3 repeated attributes
+    for n in _permuted_slots(derive, it):
         yield "attr-order", n, "perm"
     # order inside one list
     n = clone(it)
